@@ -218,7 +218,7 @@ def run_impl(case, rnd):
     return t, dict(k=k, B=Bg, BL=BLg, Bnp=B, BLnp=BL, dense=Dn), obs
 
 
-def coq_case(t, io, o, flag_amb):
+def coq_case(t, io, o, flag_amb, flag_fwd=True):
     n = T.shape(t)[0]
     k = io["k"]
     direct = o.get("ok") and "TIter" not in o["rty"]
@@ -242,7 +242,7 @@ def coq_case(t, io, o, flag_amb):
     o["num_in_coq"] = bool(direct and num)
     empty = "[]"
     return ("{| ce := " + L.coq_tree(t) + "; ca := " + L.coq_atree(t) + f"; calg := {o['alg']}; cn := {n}; ck := {k}; clu := {lu}; cchol := {ch}; "
-            f"cnum := {'true' if num else 'false'}; cflag := {'true' if flag_amb else 'false'}; cerr := {0 if o.get('ok') else ERRCODE.get(o.get('err'), 9)}; crty := {o['rty'] if o.get('ok') else 'TOp 0'}; "
+            f"cnum := {'true' if num else 'false'}; cfwd := {'true' if flag_fwd else 'false'}; cflag := {'true' if flag_amb else 'false'}; cerr := {0 if o.get('ok') else ERRCODE.get(o.get('err'), 9)}; crty := {o['rty'] if o.get('ok') else 'TOp 0'}; "
             f"cB := {L.qmat_g(io['B'])}; cBL := {L.qmat_g(io['BL'])}; "
             f"cdense := {L.qmat(o['dense']) if direct else empty}; cres := {L.qmat(o['res']) if direct else empty}; cresl := {L.qmat(o['resl']) if direct else empty}; "
             f"ctol2 := Q2Qc (1 # 10000000000000000) |}}")
@@ -383,7 +383,7 @@ def run(ctx):
                 head = o["type"].split("[")[0]
                 type_hist[head] = type_hist.get(head, 0) + 1
             skip_model = (not flag_amb and False)
-            terms.append(coq_case(t, io, o, flag_amb))
+            terms.append(coq_case(t, io, o, flag_amb, "inv_psd_alg_forwarded_to_factors" in present))
             meta.append((ci, alg, bad if not flag else [], o))
     # large-operator branch of Auto
     big_rows, big_coq = large_cases(ctx, present)
